@@ -3,5 +3,6 @@
 EXTENDS Integers
 C16_Accepts(r) == r.signed => (r.sig_ok /\ r.key_ok)
 C16_KeyAccompanies(r) == r.key_ok
-C16_Fresh(r, tolMs) == r.signed => (r.ts_ms >= r.call_ms - tolMs /\ r.ts_ms <= r.recv_ms + tolMs)
+\* the timestamp is current when the exchange receives the request (it is taken after any rate-limiter wait)
+C16_Fresh(r, tolMs) == r.signed => (r.ts_ms >= r.recv_ms - tolMs /\ r.ts_ms <= r.recv_ms + tolMs)
 ================================================================================
